@@ -89,6 +89,9 @@ class P:
                 return ("arr", items)
         if c == "{":
             return ("obj", self.object())
+        if s.startswith("-Infinity", self.i):
+            self.i += len("-Infinity")
+            return ("num", float("-inf"))
         m = _NUM.match(s, self.i)
         if m and m.group(0):
             self.i = m.end()
@@ -103,6 +106,10 @@ class P:
                 return ("bool", False)
             if w == "null":
                 return ("null",)
+            if w == "Infinity":
+                return ("num", float("inf"))
+            if w == "NaN":
+                return ("nan",)
             return ("raw", w)
         raise JSParseError(f"unexpected input at {self.i}: {s[self.i:self.i+40]!r}")
 
